@@ -475,7 +475,18 @@ def r9(ctx, r):
             if f.kind in ("dtor",) or f.name.endswith("::~Impl"):
                 continue
             facts = dominating_facts(f, e)
-            closed = any(t and any(x.get("k") == "member" and x["n"] == SRB + "::closed" for x in walk(c)) and strip_casts(c).get("k") in ("member", "cast") for (c, t) in facts)
+            def flag_true(c, t):
+                c = strip_casts(c)
+                if c.get("k") == "member" and c["n"] == SRB + "::closed":
+                    return t
+                if c.get("k") == "bin" and c.get("op") in ("==", "!="):
+                    l, rr = strip_casts(c["lhs"]), strip_casts(c["rhs"])
+                    if rr.get("k") == "member":
+                        l, rr = rr, l
+                    if l.get("k") == "member" and l["n"] == SRB + "::closed" and const_value(rr) is not None:
+                        return ((c["op"] == "==") == bool(const_value(rr))) == t
+                return False
+            closed = any(flag_true(c, t) for (c, t) in facts)
             r.expect(closed, f, e, "live receive buffer erased", "%s removes a receiveBuffers entry that is not known to be closed (known: %s): bytes that arrive for the session afterwards find no buffer and "
                      "are dropped by the data handler while the mode is still Sync — the next receiveSync misses them" % (short(f.name), "; ".join(("" if t else "!") + show(c)[:40] for c, t in facts[-4:]) or "nothing"),
                      okdesc="%s: erase only of a closed buffer" % short(f.name))
